@@ -58,6 +58,7 @@ def run(ctx):
   sharded_update_layout(ctx)
   sharded_record_conversion(ctx)
   graft_accumulator_agreement(ctx)
+  no_numpy_floats_in_update(ctx)
   sketchy_buffer_widths(ctx)
   sketchy_update_shapes(ctx)
   from . import C13
@@ -137,6 +138,47 @@ def graft_accumulator_agreement(ctx):
     ctx.ob('C07.R2', fpred.short, f'accumulator allocated iff used [GraftingType.{g}]', cval(b) == uses,
            f'for GraftingType.{g} init {"allocates" if cval(b) else "does not allocate"} diagonal_statistics but _transform_grad '
            f'{"accumulates squared gradients into it" if uses else "leaves it untouched"}', ctx.loc(fpred), sample=f'{g}: {"array" if uses else "[]"}')
+
+
+_NUMPY_FLOAT_FNS = {'sqrt', 'log', 'log2', 'log10', 'exp', 'power', 'mean', 'std', 'var', 'divide', 'true_divide', 'float64', 'float_', 'double',
+                    'reciprocal', 'cbrt', 'square', 'linalg.norm', 'sum', 'prod', 'cumsum'}
+
+
+def no_numpy_floats_in_update(ctx):
+  """R9: the per-parameter transform computes with jnp only: a *numpy* float function (np.sqrt(n), np.mean(..)) returns a
+  float64 scalar that JAX treats as strongly typed, so under jax_enable_x64 it promotes whatever it is combined with -
+  the update and every state leaf derived from it change dtype after the first step (Python floats and jnp scalars of
+  unspecified dtype are weakly typed and do not).  Decided on the value graph of `_transform_grad` for every graft
+  type with all optional stages on: no call of a float-valued numpy function reaches the returned update or state."""
+  from . import C02
+  m = ctx.model
+  ftg = m.func(MOD, F + '._transform_grad')
+  ctx.analysed(ftg)
+  ev0 = evaluator(m)
+  members = [f_ for f_, _, _ in m.cls(MOD, 'GraftingType').fields]
+  v = dict(skip=False, dec_lr=True, callable_lr=True, wd=True, dec_wd=False, mavg=True, nesterov=True, clip=True)
+  n = 0
+  for g in members:
+    gterm = enum_member(ev0, m, MOD, 'GraftingType', g)
+    ev2 = evaluator(m, factory_cfg={'graft_type': gterm}, decide=C02.make_decider(v), opaque=C02.OPAQUE)
+    r = ev2.run(ftg)
+    ctx.evaluations += 1
+    n += 1
+    bad = []
+    for x in walk(r):
+      if x.op == 'call' and x.args[0].op == 'ext' and x.args[0].args[0].startswith('numpy.') and not x.args[0].args[0].startswith('numpy.random'):
+        short = x.args[0].args[0][len('numpy.'):]
+        if short in _NUMPY_FLOAT_FNS:
+          bad.append(x)
+    wrapped = set()
+    for x in walk(r):      # float(np.sqrt(..)) / jnp.asarray(np..., dtype) are fine
+      if x.op == 'call' and x.args[0].op == 'builtin' and x.args[0].args[0] in ('float', 'int') and x.args[1]:
+        wrapped |= {y for y in walk(x.args[1][0])}
+    bad = [x for x in bad if x not in wrapped]
+    ctx.ob('C07.R2', ftg.short, f'no numpy float arithmetic on the update path [GraftingType.{g}]', not bad,
+           f'`{show(bad[0], maxdepth=3)[:120] if bad else ""}` is a numpy float64 value inside the traced update: with jax_enable_x64 it promotes the update and the '
+           f'state leaves computed from it to float64 (use jnp, or wrap in float(..))', ctx.loc(ftg), sample='jnp.sqrt(float(n))')
+  ctx.need('C07.R2', n, 5, 'graft types evaluated for numpy float calls')
 
 
 def sketchy_buffer_widths(ctx):
@@ -790,11 +832,12 @@ def _counter_semantic(m, fi, truth, cmps, extra0):
 def _counter_guarded(idx, scope):
   """idx = phi/loop counter whose increment is ite(not skip, phi + len(shapes), phi) or len(list extended under not skip)."""
   name = None
+  label = None
   for x in walk(idx):
     if x.op == 'phi':
       name = x.args[1]
     if x.op == 'loopacc':
-      name = x.args[1]
+      label, name = x.args[0], x.args[1]
   if name is not None and name in scope.vars:
     final = scope.vars[name]
     loops = [x for x in walk(final) if x.op == 'loop' and x.args[1] == name]
@@ -807,6 +850,14 @@ def _counter_guarded(idx, scope):
       return False
     if final.op == 'list':
       stars = [e for e in final.args if e.op == 'star' and e.args[1].op in ('loopdom', 'guarded')]
+
+      def loop_of(dom):
+        while dom.op == 'guarded' and len(dom.args) > 1:
+          dom = dom.args[1]
+        return dom.args[0] if dom.op == 'loopdom' else None
+      if label is not None:
+        # what a LATER loop appends (the device padding) is not seen by the counter read inside loop `label`
+        stars = [e for e in stars if loop_of(e.args[1]) in (label, None)]
       if not stars:
         return False
       for e in stars:
